@@ -58,6 +58,10 @@ CHECKS = {
    technique="exhaustive enumeration of bounded tuple histories x creator-state assignments x trimming horizons on the real tuple code (verif facade), against a list-of-versions model",
    text="Every (schema, initial row, update chain) of a bounded family - 1-2 key columns, 0-3 value columns over {Int, BigInt, Double, Bool, Text} with NULLs, empty and 300-byte text, boundary integers; chains of <= 2 updates (thorough: 3) touching every subset of the value columns with every domain value; with and without a final delete - is built with the real TupleBuilder/add_version_with/delete, and for EVERY assignment of {committed before the reader, started after it, active, aborted, the reader itself} to the creator, each updater and the deleter the snapshot decoder must return exactly the newest version whose creator the reader may see (nothing if the deleter is visible or no version is), with every value and NULL flag intact; encode->decode is the identity for every version; for every trimming horizon valid for that reader, vacuuming must not change what it decodes.",
    note="Trusted: the facade's pass-through and the version-list model. One listed finding (every version carries the row creator's id) is applied as an exact quirk: an execution is attributed to it only if the quirk model reproduces the decoded result exactly."),
+ "C19": dict(engine="values", cat=EX, ref="7/C19",
+   technique="exhaustive enumeration of all values, ordered pairs and ordered triples of a boundary-value grid against algebraic laws and an exact reference comparison, plus SQL-level ORDER BY/DISTINCT/=/</unique-index checks per column type",
+   text="Over a grid of 80 values (NULL, Bools, Int/BigInt/UInt/BigUInt boundaries around 2^24, 2^31, 2^32, 2^53, 2^63, Float/Double with -0.0, subnormals, infinities, NaN, texts incl. empty, prefix-related, non-ASCII at 8-byte-aligned offsets, 300 B and 70 000 B): every value (reflexivity, serialize/deserialize and same-type cast identity, value-preserving numeric casts), EVERY ordered pair (symmetry, == implies equal hashes, ordering antisymmetric and consistent with ==, cross-type numeric comparison equal to exact mathematical comparison, text comparison byte-wise lexicographic) and EVERY ordered triple (transitivity of == and of the order). Per column type a plain and a UNIQUE-indexed table hold the grid values: ORDER BY order, DISTINCT classes, = lookups through scan and through the index tree, < ranges and duplicate rejection must agree with the exact reference.",
+   note="Trusted: the exact reference comparison (i128 / exact float decomposition) in the harness. Three listed findings (numeric comparison via f64, NaN not reflexive, -0.0 hash) are applied by value class only."),
  "C20": dict(engine="wire", cat=EX, ref="7/C20",
    technique="exhaustive enumeration of bounded message shapes and of all short / single-byte-mutated / length-corrupted byte strings against the real codec, in isolated worker processes with an address-space cap",
    text="Every Request and Response of a bounded shape (all variants; strings from {empty, ASCII, non-ASCII, 300 B, embedded NUL, 70 000 B}; boundary integers and floats; result sets up to 3x3 with every assignment of a 2-letter cell alphabet) is round-tripped through to_bytes/from_bytes and through the framing over an in-memory pipe, including a message of exactly MAX_MESSAGE_SIZE and one byte more. ALL byte strings of length <= 2 (thorough: <= 3), every strict prefix and every single-byte substitution of every short canonical encoding, and every length/count field set to boundary values are fed to both decoders and to the frame reader: each must return Ok/Err without panic, hang or an allocation beyond the 6 GiB cap; an accepted input must be stable under re-encoding; a strict prefix of a canonical encoding must be rejected.",
@@ -97,6 +101,8 @@ m = {
     "kind_free_text": "fault enumeration: the seq engine's histories run under an I/O tap; every prefix of the file-mutation stream (and, for C08, of the recovery's own stream) is rebuilt and reopened"},
    {"name": "tuple", "path": "harness/src/engines/tuple.rs", "serves_properties": ["C18"],
     "kind_free_text": "flat exhaustive enumeration (index -> schema, row, update chain) with inner loops over state assignments and horizons, on the real tuple code via the verif facade"},
+   {"name": "values", "path": "harness/src/engines/values.rs", "serves_properties": ["C19"],
+    "kind_free_text": "flat exhaustive enumeration over a boundary-value grid (singles, pairs, triples) on the public DataType API plus per-type SQL scripts on the real engine"},
    {"name": "wal", "path": "harness/src/engines/wal.rs", "serves_properties": ["C17"],
     "kind_free_text": "explicit-state BFS over log operation sequences on the real WriteAheadLog via the verif facade, list model as oracle"},
    {"name": "wire", "path": "harness/src/engines/wire.rs", "serves_properties": ["C20"],
